@@ -110,6 +110,30 @@ class Bail(Exception):
     pass
 
 
+def id_helpers(prog):
+    """(root finder, subtree collector) of the id test: the module functions _find_root / _collect_subtree, or the Task methods the
+    id test calls in their place (`parent._tree_root()`, `x._subtree()`)"""
+    fr, cs = prog.funcs.get('task._find_root'), prog.funcs.get('task._collect_subtree')
+    if fr is not None and cs is not None:
+        return fr, cs
+    h = prog.funcs.get('task._has_id_intersection')
+    if h is None:
+        return fr, cs
+    par = h.params[0]
+    for c in walk_no_nested(h.node):
+        if isinstance(c, ast.Call) and isinstance(c.func, ast.Attribute) and not c.args and not c.keywords:
+            m = prog.find_method('Task', unmangle(c.func.attr))
+            if m is None or not m.self_name or len(m.params) != 1:
+                continue
+            if isinstance(c.func.value, ast.Name) and c.func.value.id == par and fr is None:
+                fr = m
+            elif cs is None and not (isinstance(c.func.value, ast.Name) and c.func.value.id == par):
+                # the collector calls itself on the children
+                if any(isinstance(x, ast.Call) and isinstance(x.func, ast.Attribute) and unmangle(x.func.attr) == m.name for x in walk_no_nested(m.node)):
+                    cs = m
+    return fr, cs
+
+
 class IdCheck:
     def __init__(self, ctx, func):
         self.ctx, self.prog, self.func = ctx, ctx.prog, func
@@ -117,6 +141,22 @@ class IdCheck:
         self.colls: List[Coll] = []            # every collection that was evaluated (diagnosis)
         self.notes: List[str] = []
         self.depth = 0
+        self.collect_names = {'_collect_subtree'}
+        self.root_names = {'_find_root'}
+        fr_, cs_ = id_helpers(ctx.prog)
+        if fr_ is not None:
+            self.root_names.add(fr_.name)
+        if cs_ is not None:
+            self.collect_names.add(cs_.name)
+        cs = ctx.prog.funcs.get('task._collect_subtree')
+        if cs is not None:
+            rets = [r for r in walk_no_nested(cs.node) if isinstance(r, ast.Return) and r.value is not None]
+            if len(rets) == 1:
+                m = match("list($c)", rets[0].value) or match("[$x for $x in $c]", rets[0].value)
+                c = m['c'] if m is not None else None
+                if isinstance(c, ast.Call) and isinstance(c.func, ast.Name) and len(c.args) == 1 and isinstance(c.args[0], ast.Name) and \
+                        c.args[0].id == cs.params[0]:
+                    self.collect_names.add(c.func.id)        # the generator the collection is the list of
 
     # ---------------------------------------------------------------------------------------------- expressions
     def _target(self, func, call) -> Optional[object]:
@@ -208,12 +248,12 @@ class IdCheck:
         if isinstance(fn, ast.Name) and not e.keywords:
             name = fn.id
             args = e.args
-            if name == '_find_root' and len(args) == 1:
+            if name in self.root_names and len(args) == 1:
                 a = self.ev(args[0], env, func)
                 if isinstance(a, TaskV) and a.role == 'recv':
                     return TaskV('root')
                 return TaskV('unknown')
-            if name == '_collect_subtree' and len(args) == 1:
+            if name in self.collect_names and len(args) == 1:
                 a = self.ev(args[0], env, func)
                 if isinstance(a, TaskV):
                     if a.role == 'root':
@@ -249,6 +289,16 @@ class IdCheck:
             return unk(src(e)[:40])
         if isinstance(fn, ast.Attribute) and not e.keywords:
             recv = self.ev(fn.value, env, func)
+            if isinstance(recv, TaskV) and not e.args and unmangle(fn.attr) in self.root_names:
+                return TaskV('root') if recv.role == 'recv' else TaskV('unknown')
+            if isinstance(recv, TaskV) and not e.args and unmangle(fn.attr) in self.collect_names:
+                if recv.role == 'root':
+                    return Coll('tree')
+                if recv.role == 'recv':
+                    return Coll('recv_subtree')
+                if recv.role == 'elem':
+                    return Coll('sub_elem', base=recv.of)
+                return unk(src(e)[:40])
             if isinstance(recv, DictV) and not e.args:
                 if fn.attr == 'values':
                     dd = 'identity' if recv.keyview == 'objid' else ('taskid' if recv.keyview == 'taskid' else recv.keyview)
@@ -620,6 +670,8 @@ class IdCheck:
 
     def boolf(self, e, env, func):
         """formula of a truth-valued expression"""
+        if isinstance(e, ast.Name) and isinstance(env.get(e.id), tuple) and env[e.id][0] == 'BOOL':
+            return env[e.id][1]
         if isinstance(e, ast.UnaryOp) and isinstance(e.op, ast.Not):
             return T.F_not(self.boolf(e.operand, env, func))
         if isinstance(e, ast.BoolOp):
@@ -744,10 +796,38 @@ class IdCheck:
                 if c is None:
                     raise Bail(f"loop with a return the rule does not follow: `{src(st).splitlines()[0][:50]}`")
                 return ('or', [c, ('and', [T.F_not(c), self.formula(list(rest), env, func)])])
+            if isinstance(st, ast.For) and not st.orelse:
+                fl_ = self._flag_loop(st, env, func)
+                if fl_ is not None:
+                    env[fl_[0]] = ('BOOL', ('or', [env[fl_[0]][1], fl_[1]]) if isinstance(env.get(fl_[0]), tuple) and env[fl_[0]][0] == 'BOOL' else fl_[1])
+                    continue
+            if isinstance(st, ast.Assign) and len(st.targets) == 1 and isinstance(st.targets[0], ast.Name) and \
+                    isinstance(st.value, ast.Constant) and isinstance(st.value.value, bool):
+                env[st.targets[0].id] = ('BOOL', ('const', st.value.value))
+                continue
             if isinstance(st, ast.Raise):
                 raise Bail("raise inside the predicate")
             self._stmt(st, env, func)
         return ('const', False)
+
+    def _flag_loop(self, st: ast.For, env, func):
+        """for t in X: if C(t): flag = True [; seen.add(..)]  with flag False before: the flag ends up as `any(C(t) ..)`"""
+        if not st.body or not isinstance(st.body[0], ast.If):
+            return None
+        iff = st.body[0]
+        if iff.orelse or len(iff.body) != 1 or not isinstance(iff.body[0], ast.Assign) or len(iff.body[0].targets) != 1 or \
+                not isinstance(iff.body[0].targets[0], ast.Name) or not (isinstance(iff.body[0].value, ast.Constant) and iff.body[0].value.value is True):
+            return None
+        flag = iff.body[0].targets[0].id
+        cur = env.get(flag)
+        if not (isinstance(cur, tuple) and cur[0] == 'BOOL'):
+            return None
+        ret = ast.Return(value=ast.Constant(value=True))
+        st2 = ast.For(target=st.target, iter=st.iter, body=[ast.If(test=iff.test, body=[ret], orelse=[])] + list(st.body[1:]), orelse=[])
+        ast.copy_location(st2, st)
+        ast.fix_missing_locations(st2)
+        fm = self._search_loop(st2, env, func)
+        return (flag, fm) if fm is not None else None
 
     def _search_loop(self, st: ast.For, env, func, over=None):
         """for t in X: if C(t): return True [; seen.add(t.id)]   ->  formula of `any(C(t) for t in X)`"""
@@ -977,9 +1057,12 @@ def check_collect_subtree(ctx, o, f):
     rec = [c for c in facts.calls_named(f, f.name)]
     covers = None
     for c in rec:
-        if len(c.args) != 1 or not isinstance(c.args[0], ast.Name):
+        if len(c.args) == 1 and isinstance(c.args[0], ast.Name):
+            v = c.args[0].id
+        elif not c.args and isinstance(c.func, ast.Attribute) and isinstance(c.func.value, ast.Name):
+            v = c.func.value.id                    # method form: ch._subtree()
+        else:
             continue
-        v = c.args[0].id
         its = []
         for n in ast.walk(f.node):
             if isinstance(n, ast.For) and isinstance(n.target, ast.Name) and n.target.id == v and any(x is c for x in ast.walk(n)):
@@ -1704,10 +1787,12 @@ def shared_list(ctx, o):
             if match("self._list", tgt):
                 o.refute(m, st, st, f"{m.name} rebinds the facade's list (`{src(st)[:50]}`): the task and every children list handed out earlier keep "
                                     f"the old object and go stale; the shared list must be changed in place")
-        for c in facts.calls_named(m, '__setter'):
+        publish = [c for c in walk_no_nested(m.node) if isinstance(c, ast.Call) and isinstance(c.func, ast.Attribute) and
+                   isinstance(c.func.value, ast.Name) and c.func.value.id == 'self' and c.func.attr.startswith('_ChildrenList__') and
+                   unmangle(c.func.attr) not in cl.methods and c.func.attr.split('__', 1)[-1] not in cl.methods]
+        for c in publish:
             a = c.args[0] if len(c.args) == 1 else None
-            if match("self._ChildrenList__setter(self._list)", c) or (a is not None and match("self._ChildrenList__setter", c.func) and
-                                                                     match("self._list", ex.expand(a))):
+            if a is not None and (match("self._list", a) or match("self._list", ex.expand(a))):
                 o.site(m, c, f"{m.name} publishes the shared list itself")
             else:
                 o.refute(m, c, c, f"{m.name} hands `{src(a) if a is not None else '?'}` to the task instead of the shared list object: lists handed "
